@@ -43,7 +43,7 @@ static long rx(long r) { if (r < 0 && r > -4096) { errno = (int) -r; return -1; 
 
 /* ------------------------------------------------------------------ state */
 #define MAXFD 4096
-struct ent { int live, id, bylib, user, xfer, lastid, glob; };
+struct ent { int live, id, bylib, user, xfer, lastid, glob, reported; };
 static int lock_want;   /* >0 while the next `pipe` creations are the once-per-process signal lock pipe */
 static struct ent L[MAXFD];
 static char priv[MAXFD], base[MAXFD];
@@ -84,7 +84,7 @@ static void reg(int fd, const char* kind) {
   if (fd < 0 || fd >= MAXFD || !active()) return;
   struct ent* e = &L[fd];
   if (e->live) viol("LEDGER-REUSE", "kernel fd %d reused while f%d live", fd, e->id);
-  e->live = 1; e->id = e->lastid = next_id++; e->bylib = 1; e->user = 0; e->xfer = 0; e->glob = 0;
+  e->live = 1; e->id = e->lastid = next_id++; e->bylib = 1; e->user = 0; e->xfer = 0; e->glob = 0; e->reported = 0;
   if (lock_want > 0 && !strcmp(kind, "pipe")) { e->glob = 1; lock_want--; }
   int fl = getfd_flags(fd);
   outf("env fd+ f%d %s cx=%d", e->id, kind, fl >= 0 && (fl & FD_CLOEXEC) ? 1 : 0);
@@ -320,12 +320,12 @@ static void monitors(int final) {
     char ow[256]; owners_of(k, ow, sizeof ow);
     if (strchr(ow, '+')) viol("OWNER-DUP", "f%d referenced by %s", e->id, ow);
     const char* o = ow[0] ? ow : (e->user ? "U" : e->glob ? "G" : "-");
-    if (!strcmp(o, "-")) viol("LEAK", "f%d created by libuv is open at API return but no loop/handle field refers to it and it was not handed to the caller", e->id);
+    if (!strcmp(o, "-") && !e->reported++) viol("LEAK", "f%d created by libuv is open at API return but no loop/handle field refers to it and it was not handed to the caller", e->id);
     n += snprintf(line + n, sizeof line - n, " f%d:%s", e->id, o);
     if (n > (int) sizeof line - 64) break;
   }
   outf("own%s", line);
-  if (final) {
+  if (final && !loop_ok) {
     int extra = 0;
     for (int k = 0; k < MAXFD; k++) if (now[k] && !base[k] && !priv[k]) { if (L[k].live && L[k].bylib && !L[k].user) extra++; else viol("LEAK", "kernel fd %d open at the end", k); }
     if (extra > 2) viol("LEAK", "%d libuv descriptors still open after uv_loop_close (only the 2 signal-lock pipe ends may stay)", extra);
@@ -392,7 +392,7 @@ int main(int argc, char** argv) {
     int isfinal = 0;
 
     if (!strcmp(op, "loop_init")) {
-      static int first = 1; if (first) { lock_want = 2; first = 0; }
+      { int have = 0; for (int k = 0; k < MAXFD; k++) if (L[k].live && L[k].glob) have++; lock_want = have ? 0 : 2; }
       int rc = UVCALL(uv_loop_init(loop)); loop_ok = rc == 0; lock_want = 0; outf("ret %s", R(rc)); outf("# rc=%d", rc);
     } else if (!strcmp(op, "loop_close")) {
       int rc = loop_ok ? UVCALL(uv_loop_close(loop)) : UV_EINVAL; if (rc == 0) loop_ok = 0; outf("ret %s", R(rc));
@@ -433,7 +433,7 @@ int main(int argc, char** argv) {
     } else if (!strcmp(op, "ufd") && nw >= 2) {
       int at = -1; if (nw >= 3 && !strncmp(w[2], "at=", 3)) at = atoi(w[2] + 3);
       if (at > 1) { outf("bad-op"); goto after; }
-      if (at >= 0 && L[at].live) { outf("bad-op"); goto after; }
+      if (at >= 0 && (L[0].live || L[1].live)) { outf("bad-op"); goto after; }   /* one stdio-placed descriptor at a time */
       if (!strcmp(w[1], "tcpsock")) reg_user(place(mk_sock(AF_INET, SOCK_STREAM), at), "sock");
       else if (!strcmp(w[1], "udpsock")) reg_user(place(mk_sock(AF_INET, SOCK_DGRAM), at), "sock");
       else if (!strcmp(w[1], "unixsock")) reg_user(place(mk_sock(AF_UNIX, SOCK_STREAM), at), "sock");
@@ -536,11 +536,11 @@ int main(int argc, char** argv) {
       char a[600], b[600]; uv_fs_t req; snprintf(a, sizeof a, "%s/%s", tmpdir, !strcmp(w[1], "ok") ? "src" : "missing"); snprintf(b, sizeof b, "%s/dst%d", tmpdir, next_id);
       if (!strcmp(w[1], "ok")) { int f = (int) RAW(SYS_openat, AT_FDCWD, a, O_WRONLY | O_CREAT | O_CLOEXEC, 0600); raw6(SYS_write, f, (long) "hello", 5, 0, 0, 0); raw6(SYS_close, f, 0, 0, 0, 0, 0); }
       int rc = UVCALL(uv_fs_copyfile(loop, &req, a, b, 0, NULL)); uv_fs_req_cleanup(&req); outf("ret %s", R(rc));
-    } else if (!strcmp(op, "ipc_send") && nw >= 3) {
-      /* send fresh descriptors over user fd w[1] (peer of an IPC pipe handle) */
+    } else if (!strcmp(op, "ipc_send") && nw >= 4) {
+      /* ipc_send f<peer> h<receiver> kinds...: send fresh descriptors over user fd w[1] (peer of IPC pipe handle w[2]) */
       int k = kfd_of(fid(w[1])); if (k < 0 || !L[k].user || L[k].xfer) { outf("bad-op"); goto after; }
       int fds[8], nf = 0;
-      for (int j = 2; j < nw && nf < 8; j++) fds[nf++] = !strcmp(w[j], "tcp") ? mk_sock(AF_INET, SOCK_STREAM) : !strcmp(w[j], "udp") ? mk_sock(AF_INET, SOCK_DGRAM) : mk_sock(AF_UNIX, SOCK_STREAM);
+      for (int j = 3; j < nw && nf < 8; j++) fds[nf++] = !strcmp(w[j], "tcp") ? mk_sock(AF_INET, SOCK_STREAM) : !strcmp(w[j], "udp") ? mk_sock(AF_INET, SOCK_DGRAM) : mk_sock(AF_UNIX, SOCK_STREAM);
       struct msghdr m; memset(&m, 0, sizeof m); struct iovec iv = { "x", 1 }; char cb[CMSG_SPACE(8 * sizeof(int))]; memset(cb, 0, sizeof cb);
       m.msg_iov = &iv; m.msg_iovlen = 1; m.msg_control = cb; m.msg_controllen = CMSG_SPACE(nf * sizeof(int));
       struct cmsghdr* c = CMSG_FIRSTHDR(&m); c->cmsg_level = SOL_SOCKET; c->cmsg_type = SCM_RIGHTS; c->cmsg_len = CMSG_LEN(nf * sizeof(int));
